@@ -60,7 +60,15 @@ func c15SharedRun(c c15SharedCase) (out Outcome) {
 		select {
 		case <-fin:
 		case <-time.After(15 * time.Second):
-			return viol("client-spin@compressCellblocks", "round %d: %d calls on the shared compressor had not all returned after 15 s of real time", ri, len(round))
+			if spin, _ := spinning("region.(*VerifCompressor).Compress", 20); spin {
+				return viol("client-spin@compressCellblocks", "round %d: %d calls on the shared compressor had not all returned after 15 s of real time and keep running", ri, len(round))
+			}
+			select {
+			case <-fin:
+			case <-time.After(5 * time.Minute):
+				out.Labels = append(out.Labels, "inconclusive_compress_slow")
+				return out
+			}
 		}
 		if len(round) > 1 {
 			concurrent = true
